@@ -735,7 +735,10 @@ def ww_width(
     Returns:
         torch.Tensor
     """
-    return (cost * (3 / 2) * gamma.square() * spot / a).pow(1 / 3)
+    width = (cost * (3 / 2) * gamma.square() * spot / a).pow(1 / 3)
+    # Without transaction cost the band has no width - also where gamma is infinite
+    # (at the money at maturity or at zero volatility), where 0 * inf would give nan.
+    return width.where(torch.as_tensor(cost).to(width) != 0, torch.zeros_like(width))
 
 
 def svi_variance(
